@@ -16,7 +16,7 @@ import os
 import random
 from typing import Dict, List, Optional
 
-from .. import hexref
+from .. import examples, hexref
 from ..common import Ctx, MachineryError
 from ..renderlib import vadd, vcross, vdist, vdot, vmul, vnorm, vsub
 from ..tlc import run_tlc
@@ -372,4 +372,6 @@ def run(ctx: Ctx) -> None:
                           f"Blocking.tla clause {c} rejected a {r['kind']} record ({len(r['blocks'])} blocks, {r['nverts']} vertices)",
                           {k: r[k] for k in ("kind", "nverts", "exp_nverts", "write_error", "iface")})
     ctx.sample({k: recs[3][k] for k in ("kind", "nverts", "exp_nverts", "write_ok")})
+    # the repository's example scripts: each must run and write; File.tla RightHanded / WholeSides / SidesTwice on the result
+    examples.judge_examples(ctx, "C11")
     ctx.exhaustive = False
